@@ -378,6 +378,7 @@ func (u *unitCtx) blockItem(it Item) {
 				if s == h.path[i+1] {
 					h = where{list, j, h.path[:i+1]}
 					found = true
+					break
 				}
 			}
 			if found {
@@ -459,6 +460,9 @@ func (u *unitCtx) blockItem(it Item) {
 	// locals declared in the run and still in scope at its end (declared at the top level of the run)
 	var locals []string
 	for _, s := range run {
+		if c.hasRet {
+			break // a block that may return early reports the outer variables it assigns and the returned value only
+		}
 		switch d := s.(type) {
 		case *ast.AssignStmt:
 			if d.Tok == token.DEFINE {
@@ -523,12 +527,7 @@ func (u *unitCtx) blockItem(it Item) {
 		}
 		return "{ " + strings.Join(fs, ", ") + " }"
 	}
-	// a return inside the block may sit before the declaration of a later local: such locals get their zero value there
 	body := strings.Join(c.lines, "\n")
-	if c.hasRet && len(locals) > 0 {
-		// locals must exist at every return: declare them (zero) up front and turn their declarations into assignments
-		u.fail(run[0], "block %s: contains both return statements and top-level declarations", it.Name)
-	}
 	for {
 		i := strings.Index(body, "⟪OUT:")
 		if i < 0 {
